@@ -50,6 +50,7 @@ HIGHS_KINDS = [
     "timelimit_no_solution",
     "timelimit_feasible",
     "sol_unreadable",
+    "vanishes_after_lookup",
 ]
 REAL_KINDS = ["ok", "not_executable"]
 
@@ -107,6 +108,10 @@ class SimSolver(pulp.LpSolver):
         env = self.env
         fault = env.next_fault()
         kind = fault.get("kind", "ok")
+        if kind == "vanishes_after_lookup":
+            # the step's fault concerns the HiGHS executable; this (default) solver is merely what the code under
+            # test turned to once HiGHS was gone, and it is healthy
+            kind = "ok"
         info = env.begin_solve("api", kind)
         if kind == "raise_before":
             events.fired("api.raise_before")
@@ -200,6 +205,14 @@ class FakeShutil:
         env = self.env
         if cmd == "highs" or cmd == FAKE_HIGHS:
             r = FAKE_HIGHS if env.highs_on_path else None
+            if r is not None and env.highs_lookups_left is not None:
+                # flaky PATH: the executable is found by the first look-up(s) and gone afterwards (uninstalled,
+                # unmounted) - pulp then raises PulpSolverError("cannot execute") when asked to solve
+                if env.highs_lookups_left <= 0:
+                    r = None
+                    events.fired("highs.vanishes_after_lookup")
+                else:
+                    env.highs_lookups_left -= 1
         elif cmd == pulp_coin.pulp_cbc_path:
             r = cmd if env.cbc_executable else None
         else:
@@ -253,6 +266,20 @@ class RealProcProxy:
                 first = f.readline().strip()
         delivered = code == 0 and first.split()[:1] == ["Optimal"]
         self.info["real_first_line"] = first
+        # stub fidelity, per solve: the exact 0-1 stub solves the very MPS file the real binary was given; the two
+        # optimal values must agree (compared by the engine; models beyond the stub's reach are skipped)
+        self.info["real_value"] = self.info["stub_value"] = None
+        if delivered and "objective value" in first:
+            try:
+                self.info["real_value"] = float(first.split("objective value")[1].split()[0])
+                model = zero_one.from_mps(self.argv[1], maximise="-max" in self.argv)
+                res = self.env.solve_model(model, {})
+                if res["status"] == "optimal":
+                    self.info["stub_value"] = float(res["value"])
+                else:
+                    self.info["stub_value"] = "infeasible"
+            except (zero_one.NodeCap, zero_one.Unsupported, ValueError, IndexError):
+                self.info["stub_value"] = None
         events.fired("real-cbc.ok" if delivered else "real-cbc.other")
         # the objective value is logged rounded; the assignment itself is judged by the oracle
         events.log("wait", code)
@@ -415,6 +442,13 @@ class FakeHighsProc:
                     k, v = line.strip().split("=", 1)
                     opts[k] = v
         sol, logf = opts["solution_file"], opts["log_file"]
+        if kind == "vanishes_after_lookup":
+            # reached only when the code under test looked the executable up less often than the fault allows
+            # for: the process then fails to start properly - still a solver that delivers nothing
+            events.fired("highs.vanishes_after_lookup")
+            events.log("wait", -1)
+            env.end_solve(info, delivered=False, how="exit-1")
+            return -1
         if kind == "exit_minus1":
             events.fired("highs.exit_minus1")
             events.log("wait", -1)
@@ -578,10 +612,18 @@ class SimEnv:
         self.cbc_executable = cbc_executable
         self.faults = list(faults) if faults else [{"kind": "ok"}]
         self.fault_cursor = 0
+        self.highs_lookups_left = None
+        if backend == "highs-wrapper" and self.faults[0].get("kind") == "vanishes_after_lookup":
+            self.highs_lookups_left = int(self.faults[0].get("lookups", 1))
         # one solver object per back-end for the whole run: like the process-global default solver of a
         # real process, it is reused from one conversion to the next, so state the code under test leaves
         # on it (it sets .msg) travels along
         if backend == "none":
+            # a world without any MILP back-end: no default solver, nothing called highs on PATH and the bundled
+            # CBC binary not executable either - so that code which goes looking for a solver on its own (instead
+            # of reading pulp.LpSolverDefault) finds none, as on the machines this configuration stands for
+            self.highs_on_path = False
+            self.cbc_executable = False
             return None
         key = "cbc" if backend in ("cbc-wrapper", "real-cbc") else backend
         solver = self.solver_objects.get(key)
